@@ -162,6 +162,9 @@ func (obj *NormalDistribution) ImportConfig(config ConfigDistribution, t ScalarT
   if parameters, ok := config.GetParametersAsFloats(); !ok {
     return fmt.Errorf("invalid config file")
   } else {
+    if len(parameters) != 2 {
+      return fmt.Errorf("invalid config file")
+    }
     mu    := NewScalar(t, parameters[0])
     sigma := NewScalar(t, parameters[1])
 
